@@ -128,6 +128,7 @@ func Load(repo, goos, goarch string) (*Program, error) {
 		p.SSAPkg[sp.Pkg.Path()] = sp
 	}
 	p.NumFuncs = len(ssautil.AllFunctions(prog))
+	InitTypeCanon(p)
 	InitFieldCanon(p)
 	InitFuncCanon(p)
 	return p, nil
@@ -162,6 +163,11 @@ func (p *Program) Obj(pkg, name string) types.Object {
 func (p *Program) Named(pkg, name string) *types.Named {
 	o := p.Obj(pkg, name)
 	if o == nil {
+		// carried on under another name (see typeCanon)
+		if tn := renamedType[pkg+"."+name]; tn != nil {
+			n, _ := types.Unalias(tn.Type()).(*types.Named)
+			return n
+		}
 		return nil
 	}
 	n, _ := types.Unalias(o.Type()).(*types.Named)
